@@ -267,9 +267,22 @@ class Tracker:
         if isinstance(st, ast.Assign):
             for t in st.targets:
                 tts = list(t.elts) if isinstance(t, (ast.Tuple, ast.List)) else [t]
-                for tt in tts:
+                # a, b = x, y  is two assignments
+                pairwise = isinstance(t, (ast.Tuple, ast.List)) and \
+                    isinstance(st.value, (ast.Tuple, ast.List)) and \
+                    len(st.value.elts) == len(tts)
+                for k_, tt in enumerate(tts):
                     mo = self.member_of(tt)
                     if not mo:
+                        continue
+                    if pairwise:
+                        m, idxs = mo
+                        if len(idxs) >= 2 or (len(idxs) == 1 and self._elementwise_index(m)):
+                            out.append(Event(m, 'elem', self.key(nid, idxs[0]), 'MARK', None,
+                                             st.value.elts[k_], st, nid))
+                        else:
+                            emit(m, idxs, self.classify(nid, tt, st.value.elts[k_],
+                                                        'list' if not idxs else 'elem'), st)
                         continue
                     m, idxs = mo
                     if len(idxs) == 1 and isinstance(idxs[0], ast.Slice) and \
